@@ -66,6 +66,8 @@ type Frame struct {
 	cellsBy  map[string][]*Cell
 	callIns  ssa.Instruction // call site in the caller (inlined frames)
 	loopOld  map[int]*Snapshot
+	loopExit map[int]*Snapshot // by loop ordinal: state when the (cut) loop was left on this path
+	lockSnap *Snapshot         // state right after the most recent Lock in this frame
 	loopMeas map[int]*Term
 	locksAt  int
 	isGo     bool
@@ -140,6 +142,12 @@ func (st *State) clone() *State {
 		nf.loopMeas = map[int]*Term{}
 		for k, v := range f.loopMeas {
 			nf.loopMeas[k] = v
+		}
+		if f.loopExit != nil {
+			nf.loopExit = map[int]*Snapshot{}
+			for k, v := range f.loopExit {
+				nf.loopExit[k] = v
+			}
 		}
 		nf.defers = append([]deferred(nil), f.defers...)
 		nf.params = make(map[string]Val, len(f.params))
@@ -972,6 +980,11 @@ func (ex *Exec) jump(fr *Frame, to *ssa.BasicBlock) {
 	if ex.dry == nil {
 		for _, li := range la.heads {
 			if from == li.head && !li.body[to.Index] && fr.cut[li.head.Index] {
+				// the state in which the loop was left: atexit(k, e) in later clauses
+				if fr.loopExit == nil {
+					fr.loopExit = map[int]*Snapshot{}
+				}
+				fr.loopExit[li.ordinal] = ex.st.snapshot()
 				if spec := ex.loopSpecFor(fr, li); spec != nil {
 					for i, a := range spec.After {
 						lname := fmt.Sprintf("%s.loop%d", relName(fr.fn), li.ordinal)
